@@ -151,3 +151,27 @@ fn text_of(op: usize) -> &'static str {
         assert!(r.inserted_quads == 2 * n, "{} solutions: reported {} inserted quads, expected {}", n, r.inserted_quads, 2 * n);
     }
 }
+
+/// C03: the WHERE result is a multiset - a solution that occurs k times instantiates the template k times, each
+/// time with its own blank node (UNION branches that bind the same variables to the same values)
+#[test] fn w__instantiate_templates__repeated_solutions_each_get_fresh_blank_nodes() {
+    for copies in 1..=3usize {
+        let mut db = SparqlDatabase::new();
+        execute_sparql_update("INSERT DATA { <http://e/a> <http://e/k1> \"1\" . <http://e/a> <http://e/k2> \"2\" . <http://e/a> <http://e/k3> \"3\" . <http://e/b> <http://e/k1> \"9\" }", &mut db).expect("seed");
+        // `copies` UNION branches each yield the solution {?s -> a}; one more yields {?s -> b}
+        let mut branches: Vec<String> = (1..=copies).map(|i| format!("{{ ?s <http://e/k{}> \"{}\" }}", i, i)).collect();
+        branches.push("{ ?s <http://e/k1> \"9\" }".to_string());
+        let update = format!("INSERT {{ GRAPH <http://e/records> {{ _:r <http://e/recordOf> ?s }} }} WHERE {{ {} }}", branches.join(" UNION "));
+        let r = execute_sparql_update(&update, &mut db).expect("update");
+        let (quads, _) = dataset(&db);
+        let of_a = quads.iter().filter(|q| q.1 == "http://e/recordOf" && q.2 == "http://e/a").count();
+        let of_b = quads.iter().filter(|q| q.1 == "http://e/recordOf" && q.2 == "http://e/b").count();
+        assert!(of_a == copies && of_b == 1 && r.inserted_quads == copies + 1,
+            "the WHERE pattern yields the solution ?s=a {} time(s) and ?s=b once; INSERT {{ _:r recordOf ?s }} must create one fresh blank node per solution: {} records of a (expected {}), {} of b (expected 1), reported inserted={} (expected {}); update text: {}",
+            copies, of_a, copies, of_b, r.inserted_quads, copies + 1, update);
+        // a ground template over the same solutions inserts each quad once
+        let g = execute_sparql_update(&update.replace("_:r", "<http://e/ground>"), &mut db).expect("ground update");
+        assert!(g.inserted_quads == 2, "ground template over repeated solutions: reported {} inserted quads, expected 2", g.inserted_quads);
+    }
+}
+#[test] fn w__instantiate_templates__any() { w__instantiate_templates__blank_nodes_fresh_per_solution(); w__instantiate_templates__repeated_solutions_each_get_fresh_blank_nodes(); }
